@@ -426,6 +426,9 @@ W_NoBigChunk        == ~(rd["cl"].pc = "closed" /\ nchunks = 1 /\ Len(rd["cl"].s
 W_NoResume          == ~(Converged /\ faults > 0 /\ reqFrom > 0)                          \* resumed from a non-zero offset after a fault
 W_NoLossInFlight    == ~(sessO = "broken" /\ rd["ms"].pc = "dead" /\ Len(rd["ms"].sent) > 0 /\ Len(lout) < rd["ms"].p + Len(rd["ms"].sent))
 W_NoRemoteRestart   == ~(Converged /\ faults = MaxFaults /\ cUp /\ \E r \in {"ms"} : reqFrom > 0)
+W_NoStatusAheadOfOutput == ~(rd["al"].pc = "eof" /\ IsComplete(aState) /\ rd["al"].pos = Len(lout) /\ Len(lout) < aSize)
+                           \* final status mirrored before the tail of the output, a client at EOF of the local copy:
+                           \* only the test against the RECORDED size keeps that stream open
 W_NoAlClosed        == ~(rd["al"].pc = "closed" /\ Len(rd["al"].sent) > 0 /\ faults > 0)
 
 \* ---------------------------------------------------------------- vectors for the harness (cmd/vres)
